@@ -735,10 +735,64 @@ def check_frame(program, rep):
               line=g.node.lineno)
 
 
+def check_remove_processor(program, rep):
+    """Both structures have dropped the processor before its on_remove runs
+    (a callback that registers a processor of that type again, or raises, must
+    not find - or leave - the table and the execution list in disagreement)."""
+    f = program.method('World', 'remove_processor')
+    site = _site(f)
+    w = Walker(program, _Plain(program))
+    exits = [e for e in w.run(f, program.cls('World')) if e.kind != 'raise']
+    late = None
+    n_del = 0
+    for ex in exits:
+        tr = ex.state.trace
+        first = None
+        for i, e in enumerate(tr):
+            if e.kind == 'call' and isinstance(e.sym.node, ast.Call):
+                cn = e.sym.node
+                if first is None and (dotted(cn.func) == 'self.dispatch'
+                                      or isinstance(cn.func, ast.Call)):
+                    first = i
+                    n_del += 1
+            wr = None
+            if e.kind == 'del' and e.target is not None and e.target.text \
+                    .startswith(('self._processors[',
+                                 'self._sorted_processors[')):
+                wr = e
+            if e.kind == 'store' and e.target is not None and e.target.text \
+                    .startswith(('self._sorted_processors',
+                                 'self._processors')):
+                wr = e
+            if e.kind == 'call' and isinstance(e.sym.node, ast.Call) and \
+                    isinstance(e.sym.node.func, ast.Attribute) and dotted(
+                        e.sym.node.func.value) in (
+                            'self._processors', 'self._sorted_processors') \
+                    and e.sym.node.func.attr in ('pop', 'remove', 'clear',
+                                                 '__delitem__'):
+                wr = e
+            if wr is not None and first is not None and late is None:
+                late = wr
+    rep.floor('C07.writers', 'on_remove deliveries in remove_processor',
+              n_del, 1)
+    rep.check(late is None, 'C07.writers', site,
+              late.node if late is not None else 'del self._processors[T]',
+              'the type table and the execution list have both dropped the '
+              'processor before its on_remove is delivered',
+              'a structure is updated after on_remove was delivered: a '
+              'callback that adds a processor of that type again has it '
+              'wiped from the table while it stays in the execution list '
+              '(or, raising, leaves the removed processor registered in one '
+              'structure only) - processors / get_processor and process() '
+              'disagree', line=getattr(getattr(late, 'node', None), 'lineno',
+                                       f.node.lineno))
+
+
 def run(program, rep, tier):
     del SEARCH_FUNCS[:]
     check_protocol(program, rep)
     check_add_processor(program, rep)
+    check_remove_processor(program, rep)
     check_bisect(program, rep)
     check_writers(program, rep)
     check_frame(program, rep)
